@@ -48,6 +48,46 @@ pub async fn solve(
     axum::extract::Json(input_data): axum::extract::Json<serde_json::Value>,
 ) -> axum::response::Json<serde_json::Value> {
     println!("\n\n-------------------- New Request --------------------\n");
+    #[cfg(rssched_verif)]
+    let gate = verif_gate::enter(&input_data).await;
     let output = server::solve_instance(input_data);
+    #[cfg(rssched_verif)]
+    verif_gate::exit(gate).await;
     axum::response::Json(output)
+}
+
+/// Verification hook (only compiled with `--cfg rssched_verif`): lets a test harness decide when a
+/// request starts solving and when its answer is released. Active only if the environment variable
+/// RSSCHED_VERIF_GATE_DIR is set and the request body carries a string field "verifGate"; the
+/// handler then announces `<dir>/<id>.enter` / `<dir>/<id>.exit` and waits for `<...>.go`.
+#[cfg(rssched_verif)]
+mod verif_gate {
+    use std::path::PathBuf;
+
+    fn gate_path(id: &str, point: &str) -> Option<PathBuf> {
+        let dir = std::env::var("RSSCHED_VERIF_GATE_DIR").ok()?;
+        Some(PathBuf::from(dir).join(format!("{}.{}", id, point)))
+    }
+
+    async fn pass(id: &str, point: &str) {
+        if let Some(path) = gate_path(id, point) {
+            let _ = std::fs::write(&path, b"");
+            let go = PathBuf::from(format!("{}.go", path.display()));
+            while !go.exists() {
+                tokio::time::sleep(std::time::Duration::from_millis(1)).await;
+            }
+        }
+    }
+
+    pub async fn enter(input: &serde_json::Value) -> Option<String> {
+        let id = input.get("verifGate")?.as_str()?.to_string();
+        pass(&id, "enter").await;
+        Some(id)
+    }
+
+    pub async fn exit(gate: Option<String>) {
+        if let Some(id) = gate {
+            pass(&id, "exit").await;
+        }
+    }
 }
